@@ -1,7 +1,7 @@
 #!/bin/bash
 # tools/mutant.sh <patch-file> <ID> [extra check args] : apply patch to /repo, run check, revert
 set -u
-patch="$1"; id="$2"; shift 2
+patch="$(realpath "$1")"; id="$2"; shift 2
 git -C /repo apply "$patch" || { echo "patch does not apply"; exit 9; }
 /verif/check "$id" --no-evidence "$@"; rc=$?
 git -C /repo checkout -- .
